@@ -13,6 +13,8 @@ W(k) == CASE k = 1 -> << <<8>> >>
           [] k = 5 -> << <<0, 8, 0>>, <<-4, 0, 4>> >>                 \* static window declared with zero-weight neighbours
           [] k = 6 -> << <<8>>, <<-2, -4, 0, 4, 2>>, <<8, -16, 8>> >>     \* the widest window is not the last one
           [] k = 7 -> << <<8>>, <<-4, 0, 4>>, <<2, 0, -4, 0, 2>> >>       \* ... nor the second
+          [] k = 8 -> << <<8>>, <<0, -4, 0, 4, 0>> >>                     \* a three-point delta declared with zero outer taps: its span is five
+          [] k = 9 -> << <<8>>, <<0, -8, 8>>, <<8, -16, 8>> >>             \* forward difference: a zero tap at one end only
 Mix(a, b, c, d) == (a * 7 + b * 13 + c * 5 + d * 3 + a * b)
 PrecTab == <<1, 2, 4, 8, 16>>                       \* variances 4, 2, 1, 1/2, 1/4
 Inst(n, durs, voiced, wk, vlen, salt) ==
